@@ -51,6 +51,33 @@ static std::string csv_rt(const toks_t& t)
     catch (const jc::json_exception& e) { return "err dec " + hex(text) + " " + e.what(); }
 }
 
+// csv dec d<byte> q<byte> e<byte> | <text hex>   -> ok <rows>   (n_rows, no header, no type inference)   or err <message>
+static std::string csv_dec(const toks_t& t)
+{
+    jc::csv::csv_options o;
+    std::size_t p = 2;
+    for (; p < t.size() && t[p] != "|"; ++p)
+    {
+        const std::string& a = t[p];
+        switch (a[0])
+        {
+            case 'd': o.field_delimiter(static_cast<char>(std::stoi(a.substr(1)))); break;
+            case 'q': o.quote_char(static_cast<char>(std::stoi(a.substr(1)))); break;
+            case 'e': o.quote_escape_char(static_cast<char>(std::stoi(a.substr(1)))); break;
+            default: break;
+        }
+    }
+    if (p + 1 >= t.size() + 1) throw bad_op{};
+    std::string text = p + 1 < t.size() ? unhex(t.at(p + 1)) : std::string();
+    o.assume_header(false).mapping_kind(jc::csv::csv_mapping_kind::n_rows).infer_types(false);
+    try
+    {
+        jc::ojson back = jc::csv::decode_csv<jc::ojson>(text, o);
+        return "ok " + show(back);
+    }
+    catch (const jc::json_exception& e) { return std::string("err ") + e.what(); }
+}
+
 static std::string toon_rt(const toks_t& t)
 {
     jc::toon::toon_options o;
@@ -75,6 +102,7 @@ std::string jvh::handle(const toks_t& t)
 {
     if (t.size() < 3) throw bad_op{};
     if (t[0] == "csv" && t[1] == "rt") return csv_rt(t);
+    if (t[0] == "csv" && t[1] == "dec") return csv_dec(t);
     if (t[0] == "toon" && t[1] == "rt") return toon_rt(t);
     throw bad_op{};
 }
